@@ -9,8 +9,10 @@
          "reports": [[k, report after k events]…]  (for k in want, k ≤ handled),
          "final": report after all handled events,
          "prefix": [[k, prefixB (report k) final]…]}
-        optional "xml_sessions":[{"s":S,"enc":"utf8"|"ascii"|"latin1"}] → "xml_sessions":[{"saves":[k…],"loads":[class…],"handled":n,"err":null|"save"|…}]
-        (`sessRunG (Store.xmlSaveOkEnc enc)`: the XML backend's save raises on a character the file encoding cannot take)
+        optional "xml_sessions":[{"s":S,"enc":"utf8"|"ascii"|"latin1","kind":"xml"|"junit"}] → "xml_sessions":[{"saves":[k…],"loads":[class…],"handled":n,"err":null|"save"|…}]
+        (`sessRunG (Store.xmlSaveOkEnc enc)` / `sessRunG (Junit.saveOkEnc enc)`: the save raises on a character the file encoding cannot
+         take or on a missing time)
+        optional "junit_want":[k…] → "junit_docs":[[k, element tree of `Junit.toJunit (report after k events)` | null]]
         S may also be {"k":"chosen","cli":str|null,"env":str|null}: `Saving.chosenStrategy` (what `lcc run` uses)
     {"op":"option","cli":str|null,"env":str|null} → {"expr": resolveExpr, "chosen": S | null (rejected)}
     {"op":"prefix","a":report,"b":report} → {"prefix": prefixB a b}
@@ -24,6 +26,7 @@ import LccModel.ProtoReport
 import LccModel.Model.Saving
 import LccModel.Model.Grammar
 import LccModel.Model.Store
+import LccModel.Model.Junit
 open Lean LccModel LccModel.Proto LccModel.ProtoReport LccModel.Report LccModel.Writer LccModel.Saving
 
 def decStrategy (j : Json) : Except String Strategy := do
@@ -55,6 +58,27 @@ def decEncoding (s : String) : Except String JsonFile.Encoding :=
   | "latin1" => pure .latin1
   | "utf8" => pure .utf8
   | e => throw s!"unknown encoding {e}"
+
+partial def encElem : Serial.XElem → Json
+  | .mk tag attrs text cs =>
+    Json.mkObj [("tag", Json.str tag),
+                ("attrs", encList (fun (k, v) => Json.arr #[Json.str k, match v with
+                    | .text s => encStr s
+                    | .time t => Json.num t
+                    | .num n => Json.num n]) attrs),
+                ("text", encOptStr text), ("children", encList encElem cs)]
+
+/-- the backend of a session whose save can raise: (can it save this report under this encoding?, does what it saved load / parse?) -/
+def limitedBackend (kind : String) (enc : JsonFile.Encoding) : Except String ((Report → Bool) × (Report → String)) :=
+  match kind with
+  | "xml" => pure (Store.xmlSaveOkEnc enc, fun r => match Store.oneShot .xml 0 r with
+      | .loaded _ => "loaded"
+      | .loadFailed (.noneText _) => "loaded"        -- the real load succeeds, with `None` in a text position
+      | .loadFailedText => "parse-error"
+      | .saveFailed _ => "save-error"
+      | _ => "load-error")
+  | "junit" => pure (Junit.saveOkEnc enc, fun r => if Junit.wellFormed r then "loaded" else "parse-error")
+  | k => throw s!"unknown backend kind {k}"
 
 /-- outcome class of loading what an XML save of `r` leaves on disk -/
 def xmlLoadClass (r : Report) : String :=
@@ -121,18 +145,30 @@ def handle (j : Json) : Except String Json := do
       | xj => decList (fun x => do
           let st ← decStrategy (← field x "s")
           let enc ← decEncoding (← getStr x "enc")
-          pure (st, enc)) xj
-    let xmlOut := xmlSpecs.map (fun (st, enc) =>
-      let (s, err) := sessRunG (Store.xmlSaveOkEnc enc) st clock (Sess.init clock r0) es
+          let kind := match getOptStr x "kind" with
+            | .ok (some k) => k
+            | _ => "xml"
+          let be ← limitedBackend kind enc
+          pure (st, be)) xj
+    let xmlOut := xmlSpecs.map (fun (st, (saveOk, loadClass)) =>
+      let (s, err) := sessRunG saveOk st clock (Sess.init clock r0) es
       Json.mkObj [("saves", Json.arr (s.saves.reverse.map (fun (p : Nat × Report) => Json.num p.1)).toArray),
-                  ("loads", Json.arr (s.saves.reverse.map (fun (p : Nat × Report) => Json.str (xmlLoadClass p.2))).toArray),
+                  ("loads", Json.arr (s.saves.reverse.map (fun (p : Nat × Report) => Json.str (loadClass p.2))).toArray),
                   ("handled", Json.num s.handled),
                   ("err", match err with
                     | none => Json.null
                     | some .save => Json.str "save"
                     | some (.base (.writer _)) => Json.str "writer"
                     | some (.base .strategy) => Json.str "strategy")])
+    let junitWant ← match fieldOpt j "junit_want" with
+      | .null => pure []
+      | wj => decList (fun x => x.getNat?) wj
+    let junitDocs := (junitWant.filter (· ≤ handled)).map (fun (k : Nat) =>
+      Json.arr #[Json.num k, match Junit.toJunit (trace.getD k r0) with
+        | .ok x => encElem x
+        | .error _ => Json.null])
     pure (Json.mkObj [
+      ("junit_docs", Json.arr junitDocs.toArray),
       ("xml_sessions", Json.arr xmlOut.toArray),
       ("handled", Json.num handled),
       ("err", match werr with
